@@ -332,6 +332,11 @@ typedef struct elliptic_curve_proj_pf_fpx_comb2t_mult_data_s {
 #	define EC_PF_UNKPT_MULT_WIN_BITS	EC_PF_FXP_MULT_WIN_BITS
 #endif
 
+/* All precomputed tables are sized by EC_PF_FXP_MULT_NUM_POINTS. */
+#if EC_PF_UNKPT_MULT_WIN_BITS > EC_PF_FXP_MULT_WIN_BITS
+#	error "EC_PF_UNKPT_MULT_WIN_BITS must not be greater than EC_PF_FXP_MULT_WIN_BITS"
+#endif
+
 #if EC_PF_UNKPT_MULT_ALGO == EC_PF_UNKPT_MULT_ALGO_BIN
 /* None */
 #elif EC_PF_UNKPT_MULT_ALGO == EC_PF_UNKPT_MULT_ALGO_BIN_PRECALC_DBL
